@@ -67,7 +67,7 @@ def _seq(x):
 
 
 class Rendered:
-    __slots__ = ("text", "item_line", "line_item", "use_pos", "def_name_pos")
+    __slots__ = ("text", "item_line", "line_item", "use_pos", "def_name_pos", "yield_line")
 
     def __init__(self):
         self.text = ""
@@ -75,6 +75,7 @@ class Rendered:
         self.line_item = {}     # line -> idx
         self.use_pos = {}       # (idx, uk, ui) -> (line1, col_start, col_end)  [byte == utf16 here: ASCII]
         self.def_name_pos = {}  # idx -> (line1, col_start, col_end) of the function name
+        self.yield_line = {}    # idx -> 1-based line of the fixture's yield (generator fixtures only)
 
 
 RET_TYPES = ["int", "str", "bytes", "float", "bool", "list", "dict", "set", "tuple", "complex", "object", "bytearray",
@@ -89,6 +90,10 @@ def render_module(uni, slot, module, style=None):
     """module: {"present":..,"valid":..,"items":[item..]} as printed by TLC. Returns Rendered."""
     r = Rendered()
     lines = ["import pytest", "", ""]
+    # style flags: "wrap" (one parameter per line), "alias" (fixtures renamed with name=), "async" (async generator fixtures),
+    # "crlf" (CRLF line endings)
+    st_flags = set((style or "").split("+")) - {""}
+    style = "wrap" if "wrap" in st_flags else None
     items = _seq(module.get("items"))
     cls_counter = 0
     for i0, it in enumerate(items):
@@ -101,9 +106,15 @@ def render_module(uni, slot, module, style=None):
                 args.append('scope="%s"' % SCOPES[it["scope"]])
             if it.get("autouse"):
                 args.append("autouse=True")
-            lines.append("@pytest.fixture" + ("(%s)" % ", ".join(args) if args else ""))
             deps = _seq(it["deps"])
-            head = "def %s(" % it["name"]
+            fname = it["name"]
+            if "alias" in st_flags and not deps:
+                # a RENAMED fixture: the function is called otherwise, the fixture name comes from name=
+                args.append('name="%s"' % it["name"])
+                fname = it["name"] + "_impl"
+            lines.append("@pytest.fixture" + ("(%s)" % ", ".join(args) if args else ""))
+            kw = "async def" if "async" in st_flags else "def"
+            head = "%s %s(" % (kw, fname)
             # every file annotates its fixtures with ITS OWN return type: inlay hints and hover then tell which
             # definition a feature is describing
             ret = " -> %s" % ret_type_of(uni, slot)
@@ -122,9 +133,11 @@ def render_module(uni, slot, module, style=None):
                     parts.append(d)
                     col += len(d) + 2
                 lines.append(head + ", ".join(parts) + ")%s:" % ret)
-            lines.append("    return 1")
+            lines.append("    yield 1" if "async" in st_flags else "    return 1")
+            if "async" in st_flags:
+                r.yield_line[idx] = len(lines)
             r.item_line[idx] = ln + 1
-            r.def_name_pos[idx] = (ln + 1, 4, 4 + len(it["name"]))
+            r.def_name_pos[idx] = (ln + 1, len(kw) + 1, len(kw) + 1 + len(fname))
         elif k == "test":
             marks, cmarks, ind = _seq(it["marks"]), _seq(it["cmarks"]), _seq(it["ind"])
             deps = _seq(it["deps"])
@@ -215,6 +228,8 @@ def render_module(uni, slot, module, style=None):
     if not module.get("valid", True):
         # an unparsable version of the same text: an unclosed parenthesis at the end
         r.text = r.text + "def broken(:\n"
+    if "crlf" in st_flags:
+        r.text = r.text.replace("\n", "\r\n")
     r.line_item = {l: i for i, l in r.item_line.items()}
     return r
 
